@@ -1051,6 +1051,9 @@ def _forked(body, timeout=60):
         code = 0
         try:
             os.close(rfd)
+            # glibc reports heap corruption of the child on stderr: keep the checker's output clean
+            dn = os.open(os.devnull, os.O_WRONLY)
+            os.dup2(dn, 2)
             try:
                 val = ("ok", body())
             except BaseException as e:  # noqa
@@ -1619,3 +1622,429 @@ def model_builders(cx):
 
                 params["identity_term"] = bool((kmin == 0) or k == 0 or "I" in ops)
                 _light_checks(cx, "rand_operator", params, getH, ref, regs)
+
+
+# ----------------------------------------------------------------------------------------------
+# driver 5: spin-chain MPO builders (tensor side) and matrix-side generators vs the model formula
+# ----------------------------------------------------------------------------------------------
+
+def spin_mats(S):
+    """textbook spin-S matrices in the basis m = S, S-1, ..., -S"""
+    D = int(round(2 * S + 1))
+    ms = [S - q for q in range(D)]
+    Sz = np.diag(ms).astype(complex)
+    Sp = np.zeros((D, D), dtype=complex)
+    for q in range(1, D):
+        m = ms[q]  # S+ |m> = sqrt(S(S+1) - m(m+1)) |m+1>,  |m+1> has index q-1
+        Sp[q - 1, q] = math.sqrt(S * (S + 1) - m * (m + 1))
+    Sm = Sp.conj().T
+    return {"X": (Sp + Sm) / 2, "Y": (Sp - Sm) / 2j, "Z": Sz, "+": Sp, "-": Sm, "I": np.eye(D, dtype=complex)}
+
+
+def chain_embed(ops, L, D):
+    """kron of single-site operators {site: matrix} on a chain of L sites of dimension D"""
+    return kron_all([ops.get(q, np.eye(D)) for q in range(L)])
+
+
+def chain_ref(L, S, cyclic, two, one):
+    """H = sum_i sum_(c,a,b) in two(i) c A_i B_(i+1 mod L) + sum_i sum_(c,a) in one(i) c A_i; bonds i = 0..L-2 (+ L-1 if cyclic)"""
+    sm = spin_mats(S)
+    D = int(round(2 * S + 1))
+    H = np.zeros((D ** L, D ** L), dtype=complex)
+
+    def mat(a):
+        return sm[a] if isinstance(a, str) else np.asarray(a, dtype=complex)
+
+    for i in range(L if cyclic else L - 1):
+        j = (i + 1) % L
+        for c, a, b in two(i):
+            if i == j:
+                continue
+            if j > i:
+                H += c * chain_embed({i: mat(a), j: mat(b)}, L, D)
+            else:
+                H += c * chain_embed({j: mat(b), i: mat(a)}, L, D)
+    for i in range(L):
+        for c, a in one(i):
+            H += c * chain_embed({i: mat(a)}, L, D)
+    return H
+
+
+def heis_two(jx, jy, jz):
+    return lambda i: [(jx, "X", "X"), (jy, "Y", "Y"), (jz, "Z", "Z")]
+
+
+@driver("C19", "spin-chain-builders", chunks=6, timeout=200,
+        bound="MPO_ham_heis / ising / XY / XXZ / mbl / bilinear_biquadratic, ham_1d_* (LocalHam1D) and SpinHam1D with site-specific "
+              "terms vs ham_heis / ham_ising / ham_XY / ham_XXZ / ham_mbl / ham_j1j2 / ham_heis_2D / ham_hubbard_hardcore and vs the "
+              "model formula with textbook spin-S matrices: L = 2..7 (thorough ..9), S in {1/2, 1, 3/2} with D^L <= 729, open / "
+              "cyclic (LocalHam1D cyclic: L >= 3; j1j2 cyclic: L >= 5), scalar / anisotropic couplings, sparse formats, workers")
+def spin_chains(cx):
+    import scipy.sparse as sp
+
+    import quimb as qu
+    import quimb.tensor as qtn
+    from quimb.tensor import tensor_builder as qtb  # MPO_ham_XXZ / bilinear_biquadratic are not re-exported
+
+    rng = cx.rng
+    ncases = 36 if cx.quick else 300
+    Lmax = 7 if cx.quick else 9
+    rnd = lambda: float(np.round(rng.normal(), 3)) or 0.25  # noqa: E731
+
+    def local_ham_sum(lh, L, D):
+        tot = np.zeros((D ** L, D ** L), dtype=complex)
+        for (a, b), M in lh.terms.items():
+            M = np.asarray(M, dtype=complex).reshape(D, D, D, D)  # (a_out, b_out, a_in, b_in)
+            full = np.kron(M.reshape(D * D, D * D), np.eye(D ** (L - 2)))
+            t = full.reshape((D,) * (2 * L))
+            cur = [a, b] + [q for q in range(L) if q not in (a, b)]
+            perm = [cur.index(q) for q in range(L)]
+            tot += t.transpose(perm + [L + p for p in perm]).reshape(D ** L, D ** L)
+        return tot
+
+    for i in range(ncases * cx.nchunks):
+        if not cx.mine():
+            continue
+        if cx.out_of_time():
+            cx.inconclusive.append("spin-chain-builders: time budget exhausted")
+            return
+        model = ("heis", "ising", "XY", "XXZ", "mbl", "custom", "j1j2", "heis2d", "hardcore", "bilbiq")[i % 10]
+        cyclic = bool(rng.integers(0, 2))
+        S = (0.5, 0.5, 1, 1.5)[int(rng.integers(0, 4))]
+        D = int(2 * S + 1)
+        L = int(rng.integers(2, Lmax + 1))
+        while D ** L > 729:
+            L -= 1
+        sparse = bool(rng.integers(0, 2))
+        stype = ("csr", "csc", "coo", "bsr")[int(rng.integers(0, 4))]
+        mopts = dict(sparse=sparse, stype=stype) if sparse else {}
+        p0 = dict(i=i, model=model, L=L, cyclic=cyclic)
+
+        def mat_check(A, R, what, sparse=sparse, stype=stype):
+            if sparse:
+                if not sp.issparse(A) or A.format != stype:
+                    return f"{what}: format {getattr(A, 'format', type(A))} != {stype}"
+            elif sp.issparse(A):
+                return f"{what}: sparse result for sparse=False"
+            return close(A, R, what)
+
+        if model in ("heis", "ising", "XY", "XXZ"):
+            if model == "heis":
+                jk = int(rng.integers(0, 3))
+                j = rnd() if jk == 0 else (lambda a: (a, a, rnd()))(rnd()) if jk == 1 else (rnd(), rnd(), rnd())
+                bz = (0.0, rnd())[int(rng.integers(0, 2))]
+                jx, jy, jz = j if isinstance(j, tuple) else (j, j, j)
+                two, one = heis_two(jx, jy, jz), (lambda q, bz=bz: [(-bz, "Z")])
+                mpo = lambda j=j, bz=bz, **kw: qtn.MPO_ham_heis(L, j=j, bz=bz, **kw)  # noqa: E731
+                lham = lambda j=j, bz=bz, **kw: qtn.ham_1d_heis(L, j=j, bz=bz, **kw)  # noqa: E731
+                bvec = int(rng.integers(0, 2))
+                bb = (rnd(), rnd(), rnd()) if bvec else bz
+                mat = lambda j=j, bb=bb, **kw: qu.ham_heis(L, j=j, b=bb, **kw)  # noqa: E731
+                mat_one = (lambda q, bb=bb: [(-bb[0], "X"), (-bb[1], "Y"), (-bb[2], "Z")]) if bvec else one
+                desc = dict(jkind=jk, bz=bz != 0.0, bvec=bvec)
+            elif model == "ising":
+                j, bx = rnd(), (0.0, rnd())[int(rng.integers(0, 2))]
+                two, one = (lambda q, j=j: [(j, "Z", "Z")]), (lambda q, bx=bx: [(-bx, "X")])
+                mpo = lambda j=j, bx=bx, **kw: qtn.MPO_ham_ising(L, j=j, bx=bx, **kw)  # noqa: E731
+                lham = lambda j=j, bx=bx, **kw: qtn.ham_1d_ising(L, j=j, bx=bx, **kw)  # noqa: E731
+                mat = lambda j=j, bx=bx, **kw: qu.ham_ising(L, jz=j, bx=bx, **kw)  # noqa: E731
+                mat_one = one
+                desc = dict(bx=bx != 0.0)
+            elif model == "XY":
+                jk = int(rng.integers(0, 2))
+                j = rnd() if jk == 0 else (rnd(), rnd())
+                bz = (0.0, rnd())[int(rng.integers(0, 2))]
+                jx, jy = j if isinstance(j, tuple) else (j, j)
+                two, one = heis_two(jx, jy, 0.0), (lambda q, bz=bz: [(-bz, "Z")])
+                mpo = lambda j=j, bz=bz, **kw: qtn.MPO_ham_XY(L, j=j, bz=bz, **kw)  # noqa: E731
+                lham = lambda j=j, bz=bz, **kw: qtn.ham_1d_XY(L, j=j, bz=bz, **kw)  # noqa: E731
+                # the matrix-side generator takes a single xy coupling
+                mat = (lambda j=j, bz=bz, **kw: qu.ham_XY(L, j, bz, **kw)) if jk == 0 else None  # noqa: E731
+                mat_one = one
+                desc = dict(jkind=jk, bz=bz != 0.0)
+            else:
+                delta, jxy = rnd(), rnd()
+                two, one = heis_two(jxy, jxy, delta), (lambda q: [])
+                mpo = lambda delta=delta, jxy=jxy, **kw: qtb.MPO_ham_XXZ(L, delta, jxy=jxy, **kw)  # noqa: E731
+                lham = lambda delta=delta, jxy=jxy, **kw: qtb.ham_1d_XXZ(L, delta, jxy=jxy, **kw)  # noqa: E731
+                mat = lambda delta=delta, jxy=jxy, **kw: qu.ham_XXZ(L, delta, jxy=jxy, **kw)  # noqa: E731
+                mat_one = one
+                desc = {}
+            p = dict(p0, S=S, **desc)
+
+            def t_mpo(mpo=mpo, two=two, one=one, L=L, S=S, cyclic=cyclic):
+                m = mpo(S=S, cyclic=cyclic)
+                if m.L != L:
+                    return f"mpo.L {m.L}"
+                return close(m.to_dense(), chain_ref(L, S, cyclic, two, one), "MPO dense")
+
+            cx.check(f"MPO_ham_{model}(L, S, cyclic).to_dense() == model formula with spin-S matrices", p, t_mpo)
+            if not (cyclic and L < 3):
+                def t_lh(lham=lham, two=two, one=one, L=L, S=S, cyclic=cyclic, D=D):
+                    lh = lham(S=S, cyclic=cyclic)
+                    return close(local_ham_sum(lh, L, D), chain_ref(L, S, cyclic, two, one), "sum of LocalHam1D terms")
+
+                cx.check(f"ham_1d_{model}(L, S, cyclic): sum of embedded pair terms == model formula", p, t_lh)
+            if mat is not None and L <= 9:
+                par = bool(rng.integers(0, 2)) if model == "heis" else None
+
+                def t_mat(mat=mat, mpo=mpo, two=two, mat_one=mat_one, one=one, L=L, cyclic=cyclic, mopts=mopts, par=par,
+                          model=model):
+                    kw = dict(mopts, cyclic=cyclic)
+                    if par is not None:
+                        kw["parallel"] = par
+                    A = mat(**kw)
+                    R = chain_ref(L, 0.5, cyclic, two, mat_one)
+                    e = mat_check(A, R, f"ham_{model}")
+                    if e:
+                        return e
+                    if mat_one is one:
+                        # same model through the tensor-side builder
+                        return close(mpo(S=0.5, cyclic=cyclic).to_dense(), A.toarray() if sp.issparse(A) else A,
+                                     f"MPO_ham_{model} vs ham_{model}")
+                    return None
+
+                cx.check(f"ham_{model}(n, cyclic, sparse, stype) == model formula == MPO_ham_{model}(S=1/2)",
+                         dict(p, S=0.5, sparse=sparse, stype=stype if sparse else None, parallel=par), t_mat)
+
+        elif model == "mbl":
+            jk = int(rng.integers(0, 2))
+            j = rnd() if jk == 0 else (rnd(), rnd(), rnd())
+            jx, jy, jz = j if isinstance(j, tuple) else (j, j, j)
+            dh = abs(rnd()) + 0.1
+            seed = int(rng.integers(0, 10000))
+            dist = ("s", "g", "qp")[int(rng.integers(0, 3))]
+            dim = 1 if dist == "qp" else (1, 2, 3, "yz")[int(rng.integers(0, 4))]
+            p = dict(p0, S=S, jkind=jk, seed=seed, dh_dist=dist, dh_dim=str(dim), sparse=sparse)
+            dirs = {1: "Z", 2: "XY", 3: "XYZ", "yz": "YZ"}[dim]
+
+            def field_structure(A, base, L, S, dirs, dh, dist):
+                """A - base must be a sum of single-site fields h_i^d S^d_i along the allowed directions (|h| <= dh for
+                the box and quasi-periodic distributions)"""
+                sm = spin_mats(S)
+                Dl = int(2 * S + 1)
+                diff = A - base
+                rec = np.zeros_like(diff)
+                nrm = np.trace(sm["Z"] @ sm["Z"]).real * Dl ** (L - 1)
+                for q in range(L):
+                    for d in "XYZ":
+                        E = chain_embed({q: sm[d]}, L, Dl)
+                        h = np.trace(E.conj().T @ diff) / nrm
+                        if abs(h.imag) > 1e-10:
+                            return f"complex field on site {q}"
+                        if d not in dirs and abs(h) > 1e-10:
+                            return f"field {h:.3e} along {d} on site {q} but dh_dim allows {dirs}"
+                        if dist in ("s", "qp") and abs(h) > dh * (1 + 1e-12):
+                            return f"|field| {abs(h):.4f} > dh {dh:.4f} on site {q}"
+                        rec += h * E
+                return close(rec, diff, "H - H_heisenberg is not a sum of single-site fields")
+
+            def t_mbl(L=L, S=S, cyclic=cyclic, j=j, jx=jx, jy=jy, jz=jz, dh=dh, seed=seed, dist=dist, dim=dim, dirs=dirs):
+                m = qtn.MPO_ham_mbl(L, dh, j=j, seed=seed, S=S, cyclic=cyclic, dh_dist=dist, dh_dim=dim).to_dense()
+                base = chain_ref(L, S, cyclic, heis_two(jx, jy, jz), lambda q: [])
+                e = field_structure(np.asarray(m, dtype=complex), base, L, S, dirs, dh, dist)
+                if e:
+                    return "MPO_ham_mbl: " + e
+                if not (cyclic and L < 3):
+                    lh = qtn.ham_1d_mbl(L, dh, j=j, seed=seed, S=S, cyclic=cyclic, dh_dist=dist, dh_dim=dim)
+                    e = close(local_ham_sum(lh, L, int(2 * S + 1)), m, "ham_1d_mbl vs MPO_ham_mbl (same seed)")
+                return e
+
+            cx.check("MPO_ham_mbl == Heisenberg formula + single-site random fields in the allowed directions == ham_1d_mbl", p,
+                     t_mbl)
+
+            def t_mbl2(L=L, cyclic=cyclic, j=j, jx=jx, jy=jy, jz=jz, dh=dh, seed=seed, dist=dist, dim=dim, dirs=dirs, mopts=mopts):
+                A = qu.ham_mbl(L, dh, j=j, cyclic=cyclic, seed=seed, dh_dist=dist, dh_dim=dim, **mopts)
+                e = mat_check(A, A.toarray() if sp.issparse(A) else A, "ham_mbl")
+                if e:
+                    return e
+                A = np.asarray(A.toarray() if sp.issparse(A) else A, dtype=complex)
+                base = chain_ref(L, 0.5, cyclic, heis_two(jx, jy, jz), lambda q: [])
+                e = field_structure(A, base, L, 0.5, dirs, dh, dist)
+                if e:
+                    return "ham_mbl: " + e
+                m = qtn.MPO_ham_mbl(L, dh, j=j, seed=seed, cyclic=cyclic, dh_dist=dist, dh_dim=dim).to_dense()
+                return close(m, A, "MPO_ham_mbl vs ham_mbl (same seed, same model)")
+
+            cx.check("ham_mbl == Heisenberg formula + single-site random fields == MPO_ham_mbl for the same seed",
+                     dict(p, S=0.5, stype=stype if sparse else None), t_mbl2)
+
+        elif model == "custom":
+            # SpinHam1D with default and site-specific terms
+            names = ["X", "Y", "Z", "+", "-", "I"]
+            d2 = [(rnd(), names[int(rng.integers(0, 5))], names[int(rng.integers(0, 6))]) for _ in range(int(rng.integers(0, 4)))]
+            d1 = [(rnd(), names[int(rng.integers(0, 5))]) for _ in range(int(rng.integers(0, 3)))]
+            if rng.integers(0, 4) == 0:
+                d2.append((complex(rnd(), rnd()), "Z", "X"))
+            v2, v1 = {}, {}
+            for q in range(L - 1):
+                if rng.integers(0, 3) == 0:
+                    v2[(q, q + 1)] = [(rnd(), names[int(rng.integers(0, 5))], names[int(rng.integers(0, 5))])
+                                      for _ in range(int(rng.integers(1, 3)))]
+            for q in range(L):
+                if rng.integers(0, 3) == 0:
+                    v1[q] = [(rnd(), names[int(rng.integers(0, 6))]) for _ in range(int(rng.integers(1, 3)))]
+            use_arrays = (False, False, "ndarray", "qarray")[int(rng.integers(0, 4))]
+            how = ("iadd", "add_term", "setitem")[int(rng.integers(0, 3))]
+            if not d2 and not v2:
+                d2 = [(rnd(), "Z", "Z")]
+            p = dict(p0, S=S, n2=len(d2), n1=len(d1), var2=sorted(map(list, v2)), var1=sorted(v1), arrays=use_arrays, how=how,
+                     wrap_bond=bool(cyclic and d2))
+
+            def build(S=S, cyclic=cyclic, d2=d2, d1=d1, v2=v2, v1=v1, use_arrays=use_arrays, how=how):
+                sm = spin_mats(S)
+                cv = ((lambda a: sm[a].copy()) if use_arrays == "ndarray" else
+                      (lambda a: qu.qarray(sm[a].copy())) if use_arrays == "qarray" else (lambda a: a))
+                B = qtn.SpinHam1D(S=S, cyclic=cyclic)
+                for c, a, b in d2:
+                    if how == "add_term":
+                        B.add_term(c, cv(a), cv(b))
+                    elif c < 0 if not isinstance(c, complex) else False:
+                        B -= (-c, cv(a), cv(b))
+                    else:
+                        B += (c, cv(a), cv(b))
+                for c, a in d1:
+                    if how == "add_term":
+                        B.sub_term(-c, cv(a))
+                    else:
+                        B += (c, cv(a))
+                for key, ts in v2.items():
+                    if how == "setitem":
+                        B[key] = [(c, cv(a), cv(b)) for c, a, b in ts]
+                    else:
+                        for c, a, b in ts:
+                            B[key] += (c, cv(a), cv(b))
+                for key, ts in v1.items():
+                    if how == "setitem":
+                        B[key] = [(c, cv(a)) for c, a in ts]
+                    else:
+                        for c, a in ts:
+                            B[key] += (c, cv(a))
+                return B
+
+            def ref(L=L, S=S, cyclic=cyclic, d2=d2, d1=d1, v2=v2, v1=v1):
+                # site-specific terms replace the default terms of that bond / site
+                return chain_ref(L, S, cyclic, lambda q: v2.get((q, q + 1), d2), lambda q: v1.get(q, d1))
+
+            cx.check("SpinHam1D.build_mpo(L).to_dense() == sum of (default or site-specific) terms", p,
+                     lambda build=build, ref=ref, L=L: close(build().build_mpo(L).to_dense(), ref(), "SpinHam1D.build_mpo"))
+
+            def t_sp(build=build, ref=ref, L=L):
+                A = build().build_sparse(L)
+                e = close(A, ref(), "SpinHam1D.build_sparse")
+                return e or close(build().build_sparse(L, sparse=False), ref(), "SpinHam1D.build_sparse(sparse=False)")
+
+            cx.check("SpinHam1D.build_sparse(L) == sum of (default or site-specific) terms", p, t_sp)
+            # LocalHam1D can only hold a one-site term on a site covered by some two-site term (it is absorbed there)
+            covered = set(range(L)) if d2 else {q for key in v2 for q in key}
+            needs = set(range(L)) if d1 else set(v1)
+            if not (cyclic and L < 3) and needs <= covered:
+                def t_lh(build=build, ref=ref, L=L, D=D):
+                    return close(local_ham_sum(build().build_local_ham(L), L, D), ref(), "SpinHam1D.build_local_ham")
+
+                cx.check("SpinHam1D.build_local_ham(L): sum of embedded pair terms == sum of terms", p, t_lh)
+
+        elif model == "j1j2":
+            n = max(L, 3)
+            while 2 ** n > 512:
+                n -= 1
+            cyc = cyclic and n >= 5
+            j1, j2, bz = rnd(), rnd(), (0.0, rnd())[int(rng.integers(0, 2))]
+            p = dict(p0, L=n, cyclic=cyc, bz=bz != 0.0, sparse=sparse, stype=stype if sparse else None)
+
+            def t_j(n=n, cyc=cyc, j1=j1, j2=j2, bz=bz, mopts=mopts):
+                A = qu.ham_j1j2(n, j1=j1, j2=j2, bz=bz, cyclic=cyc, **mopts)
+                sm = spin_mats(0.5)
+                R = np.zeros((2 ** n, 2 ** n), dtype=complex)
+                for dist, jj in ((1, j1), (2, j2)):
+                    for q in range(n if cyc else n - dist):
+                        r = (q + dist) % n
+                        for d in "XYZ":
+                            R += jj * chain_embed({q: sm[d], r: sm[d]}, n, 2)
+                for q in range(n):
+                    R += bz * chain_embed({q: sm["Z"]}, n, 2)
+                return mat_check(A, R, "ham_j1j2")
+
+            cx.check("ham_j1j2 == J1 sum S.S (nearest) + J2 sum S.S (next nearest) + Bz sum Sz", p, t_j)
+
+        elif model == "heis2d":
+            nr, nc = [(1, 2), (2, 2), (2, 3), (3, 2), (1, 4), (3, 3), (2, 4), (3, 1)][int(rng.integers(0, 8))]
+            if (nr < 3 or nc < 3) and cyclic:
+                cyc = False  # wrap-around bonds coincide with direct bonds on a 2-wide lattice: keep the formula unambiguous
+            else:
+                cyc = cyclic
+            jk = int(rng.integers(0, 2))
+            j = rnd() if jk == 0 else (rnd(), rnd(), rnd())
+            bz = (0.0, rnd())[int(rng.integers(0, 2))]
+            par = bool(rng.integers(0, 2))
+            p = dict(i=i, model=model, shape=[nr, nc], cyclic=cyc, jkind=jk, bz=bz != 0.0, parallel=par, sparse=sparse,
+                     stype=stype if sparse else None)
+
+            def t_2d(nr=nr, nc=nc, cyc=cyc, j=j, bz=bz, par=par, mopts=mopts):
+                A = qu.ham_heis_2D(nr, nc, j=j, bz=bz, cyclic=cyc, parallel=par, **mopts)
+                jx, jy, jz = j if isinstance(j, tuple) else (j, j, j)
+                sm = spin_mats(0.5)
+                n = nr * nc
+                R = np.zeros((2 ** n, 2 ** n), dtype=complex)
+                idx = lambda a, b: a * nc + b  # noqa: E731
+                bonds = set()
+                for a in range(nr):
+                    for b in range(nc):
+                        for a2, b2 in ((a + 1, b), (a, b + 1)):
+                            if cyc:
+                                a2, b2 = a2 % nr, b2 % nc
+                            if a2 < nr and b2 < nc:
+                                bonds.add((idx(a, b), idx(a2, b2)))
+                for q, r in bonds:
+                    for d, jj in zip("XYZ", (jx, jy, jz)):
+                        R += jj * chain_embed({q: sm[d], r: sm[d]}, n, 2)
+                for q in range(n):
+                    R += bz * chain_embed({q: sm["Z"]}, n, 2)
+                return mat_check(A, R, "ham_heis_2D")
+
+            cx.check("ham_heis_2D == sum over lattice bonds of J.S S + Bz sum Sz (row-major site order)", p, t_2d)
+
+        elif model == "hardcore":
+            n = L
+            while 2 ** n > 512:
+                n -= 1
+            cyc = cyclic and n >= 3
+            t_, V, mu = rnd(), rnd(), rnd()
+            par = bool(rng.integers(0, 2))
+            p = dict(p0, L=n, cyclic=cyc, parallel=par, sparse=sparse, stype=stype if sparse else None)
+
+            def t_hc(n=n, cyc=cyc, t_=t_, V=V, mu=mu, par=par, mopts=mopts):
+                A = qu.ham_hubbard_hardcore(n, t=t_, V=V, mu=mu, cyclic=cyc, parallel=par, **mopts)
+                R = np.zeros((2 ** n, 2 ** n), dtype=complex)
+                for q in range(n if cyc else n - 1):
+                    r = (q + 1) % n
+                    R += -t_ * (chain_embed({q: _SP, r: _SM}, n, 2) + chain_embed({q: _SM, r: _SP}, n, 2))
+                    R += V * chain_embed({q: _N, r: _N}, n, 2)
+                for q in range(n):
+                    R += -mu * chain_embed({q: _N}, n, 2)
+                return mat_check(A, R, "ham_hubbard_hardcore")
+
+            cx.check("ham_hubbard_hardcore == -t sum (b+ b + h.c.) + V sum n n - mu sum n", p, t_hc)
+
+        else:  # bilinear-biquadratic
+            theta = float(np.round(rng.uniform(-3, 3), 3))
+            compress = bool(rng.integers(0, 2))
+            p = dict(p0, S=S, compress=compress)
+
+            def t_bb(L=L, S=S, cyclic=cyclic, theta=theta, compress=compress, D=D):
+                sm = spin_mats(S)
+                R = np.zeros((D ** L, D ** L), dtype=complex)
+                for q in range(L if cyclic else L - 1):
+                    r = (q + 1) % L
+                    SS = sum(chain_embed({q: sm[d], r: sm[d]}, L, D) for d in "XYZ")
+                    # quimb's documented model: cos(theta) S.S + sin(theta) (sum_a S^a_i S^a_i)(sum_b S^b_j S^b_j)
+                    Q = sum(chain_embed({q: sm[d] @ sm[d], r: sm[e] @ sm[e]}, L, D) for d in "XYZ" for e in "XYZ")
+                    R += math.cos(theta) * SS + math.sin(theta) * Q
+                m = qtb.MPO_ham_bilinear_biquadratic(L, theta, S=S, cyclic=cyclic, compress=compress)
+                e = close(m.to_dense(), R, "MPO_ham_bilinear_biquadratic", tol=1e-8)
+                if e or (cyclic and L < 3):
+                    return e
+                lh = qtb.ham_1d_bilinear_biquadratic(L, theta, S=S, cyclic=cyclic)
+                return close(local_ham_sum(lh, L, D), m.to_dense(), "ham_1d_bilinear_biquadratic vs MPO", tol=1e-8)
+
+            cx.check("MPO_ham_bilinear_biquadratic == ham_1d_bilinear_biquadratic (same model, same parameters)", p, t_bb)
